@@ -49,6 +49,7 @@ Step(e) ==
     [] e.a = "OpenDB"     -> XOpenDB
     [] e.a = "ExAppend"   -> ExAppend(e.c, e.pid, e.b, e.recs, e.mode, e.hw)
     [] e.a = "Replace"    -> Replace(e.c, e.keep, e.ps, e.hw)
+    [] e.a = "ExBatch"    -> ExBatch(e.items)
 
 TraceNext == l <= Len(Log) /\ l' = l + 1 /\ Step(Log[l].ev)
 
